@@ -12,7 +12,7 @@ E2  secure messaging as an explicit-state search: two endpoints T and C started 
 E1  bpki: containers of every key / share length x passwords {empty, 1, 64 octets} x iteration counts {1, 2 (reference
     encoder), 10000 (bpkiXxxWrap)}: right password -> key, wrong password / any altered octet -> error; CSR re-issue/parse.
 
-The process-wide RNG is never created here, so btokCVCWrap / bpkiCSRRewrap sign deterministically."""
+The process-wide RNG is not created (btokCVCWrap / bpkiCSRRewrap sign deterministically), except in part B2, which creates it over hook H3."""
 import datetime, hashlib, re
 import vf, cat, cat_tok, common
 import tok as T
@@ -292,6 +292,82 @@ def replay_chain(rec):
         if what == rec.get('what'):
             return m
     return msgs[0][1] if msgs else None
+
+# =================================================================================================== B2. the same rules while the process-wide RNG is active
+def rng_job(job):
+    """btok.h: "deterministic signature mode; if the standard RNG is initialised its data are used in addition" -- every other part runs
+    with the RNG closed, where btokSign() passes an empty t to bignSign2 / bign96Sign2.  Here the RNG is created first (entropy from hook H3,
+    so the run is reproducible): certificates created and issued in that process state must parse back and validate like any others."""
+    klr, kln, seed = job
+    L = common.lib(CFG)
+    if not L.has('vh_es_install') or not L.call('vh_es_install', seed):
+        return 0, [('skipped', 'hook H3 not present')]
+    out = []; calls = 0
+    if L.err('rngCreate', 0, 0) != 0:
+        L.call('vh_es_remove')
+        return 0, [('rngCreate', 'rngCreate failed under the deterministic entropy hook')]
+    try:
+        if not L.boolean('rngIsValid'):
+            out.append(('rngIsValid', 'rngCreate succeeded but rngIsValid() is false'))
+        root = make_root(klr); calls += 1
+        r = run_fn('btok.CVCUnwrap', dict(cert=root.cert, mode='self')); calls += 1
+        if r['ret'] or r['cvc'] != root.cvc:
+            out.append(('root', 'self-signed root (key %d octets) created while the RNG is active does not parse back under its own key: %#x' % (klr, r['ret'])))
+        for vv in ('nested_eq', 'overlap_end'):
+            n = make_node(root, 1, kln, ('match', vv, 'right')); calls += 1
+            for fn, c in (('btok.CVCVal', dict(cert=n.cert, certa=root.cert, date=None)), ('btok.CVCVal2', dict(cert=n.cert, certa=root.cert, date=None, want=1))):
+                r = run_fn(fn, c); calls += 1
+                if r['ret']:
+                    out.append((fn, '%s refuses (%#x) a certificate made by btokCVCWrap under the issuer key (%d octets) while the RNG is active' % (fn, r['ret'], klr)))
+                elif fn.endswith('Val2') and r.get('cvc') != n.cvc:
+                    out.append((fn + ':content', 'btokCVCVal2 returned another content than btokCVCWrap recorded'))
+            r = run_fn('btok.CVCIss', dict(n.req, certa=root.cert, privkeya=root.priv)); calls += 1
+            if r['ret']:
+                out.append(('btok.CVCIss', 'btokCVCIss failed (%#x) although the link lines up' % r['ret']))
+            else:
+                v = run_fn('btok.CVCVal2', dict(cert=r['cert'], certa=root.cert, date=None, want=1)); calls += 1
+                if v['ret'] or not _same_fields(v.get('cvc'), n.cvc):
+                    out.append(('btok.CVCIss:val', 'the certificate issued by btokCVCIss (issuer key %d octets, RNG active) is refused (%#x) or carries another content' % (klr, v['ret'])))
+                # an altered signed octet is still refused
+                bad = bytearray(r['cert']); bad[len(bad) // 3] ^= 1
+                v = run_fn('btok.CVCVal', dict(cert=bytes(bad), certa=root.cert, date=None)); calls += 1
+                if v['ret'] == 0:
+                    out.append(('btok.CVCIss:tamper', 'altered certificate accepted'))
+    finally:
+        L.call('rngClose'); L.call('vh_es_remove')
+    if L.boolean('rngIsValid'):
+        out.append(('rngClose', 'the RNG is still valid after the balancing rngClose'))
+    return calls, out
+
+def _same_fields(a, b):
+    """equal certificate content apart from the signature (two signatures under an active RNG differ by design)"""
+    if not a or not b:
+        return False
+    pa, pb = cat_tok.cvc_parse(a), cat_tok.cvc_parse(b)
+    return all(pa[k] == pb[k] for k in FIELDS)
+
+def rng_active(chk, tier):
+    jobs = [(a, b, s) for a in cat_tok.KLENS for b in cat_tok.KLENS for s in ((1,) if tier == 'quick' else (1, 2, 3))]
+    res = vf.pmap(rng_job, jobs, case_timeout=600)
+    calls = 0
+    for job, r in zip(jobs, res):
+        rec = {'cfg': CFG, 'kind': 'rngactive', 'job': list(job)}
+        if isinstance(r, dict):
+            chk.violation('rng-active:crash:%d' % job[0], rec, 'certificates under an active RNG: %s' % str(r)[-800:]); continue
+        calls += r[0]
+        for what, m in r[1]:
+            if what == 'skipped':
+                chk.observe('rng_active part skipped: ' + m)
+            else:
+                chk.violation('rng-active:%s:issuer-key-%d' % (what, job[0]), rec, m)
+    chk.part('certificates_with_rng_active', states=len(jobs), transitions=calls, traces_validated_against_impl=calls, evaluations=len(jobs))
+    chk.outcome('rng active')
+
+def replay_rngactive(rec):
+    r = vf.pmap(rng_job, [tuple(rec['job'])], nproc=1)[0]
+    if isinstance(r, dict):
+        return str(r)[-600:]
+    return '; '.join(m for w, m in r[1] if w != 'skipped') or None
 
 # =================================================================================================== C. altered certificates
 def tamper_targets(tier):
@@ -757,7 +833,7 @@ def run(tier):
         ok = vf.pmap(pbkdf2_gate, list(cat_tok.PBKDF2_10000.items()), case_timeout=600)
         if ok != [True] * len(ok):
             chk.violation('harness:pbkdf2-table', {'cfg': CFG, 'kind': 'none'}, 'the recorded reference PBKDF2 values disagree with ref/belt.py: %s' % ok)
-    for phase in (corpus, cert_tamper, containers, keylen_sweep, sm_search, chains):
+    for phase in (corpus, cert_tamper, containers, keylen_sweep, sm_search, chains, rng_active):
         if chk.expired():
             chk.cap('deadline before ' + phase.__name__); continue
         phase(chk, tier)
@@ -771,7 +847,7 @@ def run(tier):
         'containers with 1 and 2 iterations come from the reference encoder (bpkiXxxWrap demands >= 10000, checked as a documented error); bpki.h puts no lower bound on the count when parsing',
         'error codes are asserted only where a header names them (ERR_BAD_LOGIC, ERR_BAD_APDU, ERR_BAD_FORMAT for length/format, ERR_BAD_INPUT, ERR_BAD_PRIVKEY, ERR_BAD_SHAREKEY/SECKEY, ERR_NOT_IMPLEMENTED) '
         'and ERR_BAD_KEYTOKEN for a failed belt-kwp integrity check (belt.h); elsewhere any error is accepted',
-        'the process-wide RNG is not created: deterministic signatures']
+        'the process-wide RNG is not created (deterministic signatures) except in the part certificates_with_rng_active, where it is created over the deterministic entropy hook H3']
     return chk.finish('C17', 'E1: certificate content alphabet x key lengths against the reference; every per-link combination of {name, validity position, signer} along chains of depth 1..3; '
                       'every octet x mask of certificates / containers / requests; E2: breadth-first search over the events of two SM endpoints to depth 6 with dedup on the raw state bytes, '
                       'tamper probes at every reached (message, receiver state); states = certificates / state-byte nodes / altered octets, transitions = library calls')
@@ -782,6 +858,8 @@ def replay(rec):
         return common.replay_case(rec)
     if k == 'chain':
         return replay_chain(rec)
+    if k == 'rngactive':
+        return replay_rngactive(rec)
     if k == 'certtamper':
         return replay_certtamper(rec)
     if k == 'sm':
